@@ -124,30 +124,49 @@ def run(rep):
     unsub = find_def(mod, 'BaseAdapterRegistry.unsubscribe')
     fl = find_def(mod, 'BaseAdapterRegistry._find_leaf')
 
-    # ---- R09.1 --------------------------------------------------------------
-    cands = []
-    for n in walk_local(reg):
-        if isinstance(n, ast.If) and any(isinstance(s, ast.Return) for s in n.body) \
-                and isinstance(n.test, ast.Compare) and len(n.test.ops) == 1:
-            l, r = n.test.left, n.test.comparators[0]
-            sides = [l, r]
-            if not any(isinstance(x, ast.Name) and x.id == 'value' for x in sides):
+    # ---- R09.1 (over path summaries) -------------------------------------------------
+    from . import sem as _sem
+    probs = []
+    kinds = set()
+    for ps in _sem.normal(_sem.summaries(reg)):
+        if ps.facts.get('value is None') is True:
+            continue
+        guards = []
+        for c, t, p in ps.order:
+            try:
+                e = ast.parse(c, mode='eval').body
+            except SyntaxError:
                 continue
-            other = [x for x in sides if not (isinstance(x, ast.Name)
-                                              and x.id == 'value')]
-            if len(other) != 1:
-                continue
-            o = other[0]
-            if isinstance(o, ast.Constant):
-                continue            # `value is None`
-            ov = resolve_local(reg, o) if isinstance(o, ast.Name) else o
-            if match('components.get(name)', ov) is not None:
-                cands.append((n, type(n.test.ops[0]).__name__))
-    ok = len(cands) == 1 and cands[0][1] == 'Is'
-    rep.check('R09.1', 'BaseAdapterRegistry.register', ok,
-              'no-op guard compares the stored value with the new one by %s '
-              '(required: identity, `is`): %s'
-              % ([c[1] for c in cands], [norm_src(c[0].test) for c in cands]),
+            if isinstance(e, ast.Compare) and len(e.ops) == 1:
+                sides = [e.left, e.comparators[0]]
+                if any(isinstance(x, ast.Name) and x.id == 'value' for x in sides):
+                    o = [x for x in sides if not (isinstance(x, ast.Name) and x.id == 'value')]
+                    if len(o) == 1 and isinstance(o[0], ast.Call) and \
+                            isinstance(o[0].func, ast.Attribute) and o[0].func.attr == 'get':
+                        guards.append((type(e.ops[0]).__name__, t, _sem.nt(o[0])))
+        stores = [e for e in ps.stores() if isinstance(e.r, ast.Subscript)
+                  and _sem.nt(e.val) == 'value']
+        if not guards:
+            probs.append('the stored value is not compared with the new one')
+            continue
+        op, same, probe = guards[-1]
+        if op != 'Is':
+            probs.append('no-op guard compares the stored value with the new one by %s '
+                         '(required: identity, `is`)' % op)
+            continue
+        kinds.add(same)
+        if same and (stores or [e for e in ps.events if e.kind == 'call' and
+                                _sem.nt(e.r.func) == 'self.changed']):
+            probs.append('the identical value is registered again')
+        if not same and not [e for e in stores
+                             if '%s.get(%s)' % (_sem.nt(e.r.value), _sem.nt(e.r.slice)) == probe]:
+            probs.append('a different value is not stored under the probed key')
+    if kinds != {True, False}:
+        probs.append('guard outcomes seen: %s' % sorted(kinds))
+    rep.check('R09.1', 'BaseAdapterRegistry.register', not probs,
+              'registering the very object that is stored (identity) is a no-op; '
+              'anything else is stored under the probed key'
+              if not probs else {'problems': sorted(set(probs))[:3]},
               construct='same-value', node=reg)
     from . import mutators, sem
     mutators.value_filter(rep, 'R09.1', mod)
@@ -180,7 +199,7 @@ def run(rep):
                         ('subscribe', '_subscribers'), ('unsubscribe', '_subscribers')):
         mutators.descent(rep, 'R09.2', mod, fn, storage)
     # _find_leaf: generic over the byorder argument
-    ss = sem.normal(sem.summaries(fl))
+    ss = sem.normal(sem.summaries(fl, lists=True))
     rets = set()
     probs = []
     for ps in ss:
@@ -192,19 +211,20 @@ def run(rep):
               'returns byorder[len(R)] descended along R + (provided,) then '
               '.get(name), or None when a level is missing: %s' % sorted(rets),
               construct='find-leaf', node=fl)
-    # names
-    nm = [n for n in walk_local(reg) if isinstance(n, ast.Assign)
-          and match('name = $v', n, 'exec') is not None]
-    ok = len(nm) == 1 and match('_normalize_name(name)', nm[0].value) is not None
-    rep.check('R09.2', 'BaseAdapterRegistry.register', ok,
-              'name = _normalize_name(name)', construct='name', node=reg)
+    # names: the leaf key is the normalised name
+    okn = True
+    for ps in _sem.normal(_sem.summaries(reg)):
+        for e in ps.stores():
+            if isinstance(e.r, ast.Subscript) and _sem.nt(e.val) == 'value' and \
+                    _sem.nt(e.r.slice) != '_normalize_name(name)':
+                okn = False
+    rep.check('R09.2', 'BaseAdapterRegistry.register', okn,
+              'the leaf key is _normalize_name(name)', construct='name', node=reg)
     rd = find_def(mod, 'BaseAdapterRegistry.registered')
-    rets = [n for n in walk_local(rd) if isinstance(n, ast.Return)]
-    ok = len(rets) == 1 and match(
-        'self._find_leaf(self._adapters, required, provided, _normalize_name(name))',
-        rets[0].value) is not None
-    rep.check('R09.2', 'BaseAdapterRegistry.registered', ok,
-              'returns %s' % [norm_src(r.value) for r in rets],
+    rets = sorted({_sem.nt(ps.ret) for ps in _sem.normal(_sem.summaries(rd))})
+    ok = rets == ['self._find_leaf(self._adapters, required, provided, '
+                  '_normalize_name(name))']
+    rep.check('R09.2', 'BaseAdapterRegistry.registered', ok, 'returns %s' % rets,
               construct='find', node=rd)
 
     # ---- R09.3 --------------------------------------------------------------
